@@ -58,6 +58,7 @@ type Exec struct {
 	constGlobalCache map[*ssa.Global]bool
 	recDepth map[string]int
 	recDone  map[*Term]bool
+	absDivs  map[*Term]bool
 }
 
 type closureInfo struct {
